@@ -65,7 +65,7 @@ def generate(rng, tier):
                           p_helper=rng.choice([0.1, 0.3]))
     cfg['n_modules'] = (1, 2)
     cfg['n_funcs'] = (1, 3)
-    cfg['forms'] = list(gen.SIMPLE_FORMS) + ['emitop', 'emitop']
+    cfg['forms'] = list(gen.SIMPLE_FORMS) + ['emitop', 'emitop', 'blankprompt', 'blankprompt']
     if rng.random() < 0.2:
         cfg['async_forms'] = list(gen.ASYNC_FORMS)
         cfg['p_async'] = 0.3
@@ -95,7 +95,7 @@ def generate(rng, tier):
                 steps[pos:pos] = [st]
             else:
                 tgt = rng.choice(steps)
-                if tgt['form'] not in ('comment', 'directive', 'tq', 'tqprint', 'bgtask') and not tgt.get('want'):
+                if tgt['form'] not in W.NOCODE_FORMS and tgt['form'] not in ('tq', 'tqprint', 'bgtask') and not tgt.get('want'):
                     tgt['inline'] = [['+', 'REQUIRES', rng.choice(['badflag:X', 'notaplatform'])]]
                 else:
                     st = {'i': base, 'form': 'directive', 'pts': [], 'ps2': False, 'sep': 'none',
